@@ -45,6 +45,7 @@ type chainAlt struct {
 	Ret    *ssa.Return
 	Fn     *ssa.Function
 	Via    []*ssa.BasicBlock // blocks of the forwarding returns in the callers (outermost last)
+	Edges  [][2]*ssa.BasicBlock
 }
 
 func (a chainAlt) Names() string {
@@ -230,6 +231,7 @@ func (ce *chainEval) helperKind(f *ssa.Function) string {
 type sliceAlt struct {
 	Elems  []chainElem
 	Guards []Atom
+	Edges  [][2]*ssa.BasicBlock // phi edges taken (pred, phi block)
 }
 
 func (ce *chainEval) evalSlice(v ssa.Value, depth int) ([][]chainElem, bool) {
@@ -254,7 +256,7 @@ func (ce *chainEval) evalSliceG(v ssa.Value, depth int) ([]sliceAlt, bool) {
 		var out []sliceAlt
 		for _, b := range base {
 			for _, a := range add {
-				out = append(out, sliceAlt{combine(b.Elems, a.Elems), append(append([]Atom{}, b.Guards...), a.Guards...)})
+				out = append(out, sliceAlt{combine(b.Elems, a.Elems), append(append([]Atom{}, b.Guards...), a.Guards...), append(append([][2]*ssa.BasicBlock{}, b.Edges...), a.Edges...)})
 			}
 		}
 		return out
@@ -288,7 +290,7 @@ func (ce *chainEval) evalSliceG(v ssa.Value, depth int) ([]sliceAlt, bool) {
 				eg = append(eg, normAtom(ce.pv.Of(g.Cond), g.Pol))
 			}
 			for _, a := range alts {
-				out = append(out, sliceAlt{a.Elems, append(append([]Atom{}, eg...), a.Guards...)})
+				out = append(out, sliceAlt{a.Elems, append(append([]Atom{}, eg...), a.Guards...), append([][2]*ssa.BasicBlock{{x.Block().Preds[i], x.Block()}}, a.Edges...)})
 			}
 		}
 		return out, true
@@ -343,7 +345,7 @@ func (ce *chainEval) evalSliceG(v ssa.Value, depth int) ([]sliceAlt, bool) {
 				for i := range b.Elems {
 					rv[len(b.Elems)-1-i] = b.Elems[i]
 				}
-				out = append(out, sliceAlt{rv, b.Guards})
+				out = append(out, sliceAlt{rv, b.Guards, b.Edges})
 			}
 			return out, true
 		}
@@ -361,7 +363,7 @@ func (ce *chainEval) evalSliceG(v ssa.Value, depth int) ([]sliceAlt, bool) {
 				}
 				g := ce.pv.Atoms(ret.Block())
 				for _, a := range sub {
-					out = append(out, sliceAlt{a.Elems, append(append([]Atom{}, g...), a.Guards...)})
+					out = append(out, sliceAlt{a.Elems, append(append([]Atom{}, g...), a.Guards...), a.Edges})
 				}
 			}
 			ce.depth--
@@ -500,7 +502,7 @@ func (ce *chainEval) FuncChains(fn *ssa.Function, depth int) []chainAlt {
 			continue
 		}
 		for _, a := range alts {
-			out = append(out, chainAlt{Elems: a.Elems, Guards: append(append([]Atom{}, guards...), a.Guards...), Ret: ret, Fn: fn})
+			out = append(out, chainAlt{Elems: a.Elems, Guards: append(append([]Atom{}, guards...), a.Guards...), Ret: ret, Fn: fn, Edges: a.Edges})
 		}
 	}
 	return out
